@@ -169,6 +169,21 @@ func c01Atoms(thorough bool) []qAtom {
 		add("map-between", true, rm.Between{L: lhs(sym), Lo: I(4), Hi: I(6)})
 		add("map-between", true, rm.Between{L: lhs(sym), Lo: F(4.5), Hi: F(5.5)})
 		add("map-bool", true, rm.BoolSym{Sym: sym})
+		// an integer stored 32 bits wide under an any-typed element, met by integer and float operands
+		h := "tags.h"
+		for _, op := range []string{"=", "!=", "<", "<=", ">", ">="} {
+			for _, l := range []rm.Val{I(5), F(5.0), F(4.5), F(-4.0), I(-4)} {
+				add("map-int32", true, rm.Cmp{L: lhs(h), Op: op, R: l})
+			}
+		}
+		for _, not := range []bool{false, true} {
+			add("map-int32", true, rm.In{L: lhs(h), Not: not, Vals: []rm.Val{F(4.5), F(5.0)}})
+			add("map-int32", true, rm.In{L: lhs(h), Not: not, Vals: []rm.Val{I(-4), I(7)}})
+			add("map-int32", true, rm.Between{L: lhs(h), Not: not, Lo: F(-4.5), Hi: F(4.75)})
+			add("map-int32", true, rm.Between{L: lhs(h), Not: not, Lo: I(-4), Hi: I(5)})
+		}
+		add("map-int32", true, rm.Cmp{L: lhs("boss.tags.h"), Op: ">", R: F(4.5)})
+		add("map-int32", true, rm.Cmp{L: anyOf("reports.tags.h"), Op: "<", R: F(4.5)})
 	}
 	{ // id and fk symbols
 		add("id", true, rm.Cmp{L: lhs("id"), Op: "=", R: S("e1")})
